@@ -14,7 +14,7 @@ EXPLANATION = ("proved: z3_solver_sat never returns an answer when the solver ga
 TECHNIQUE = "exceptional-postcondition proofs on the real backend functions over a ghost solver (pyvc, z3) + bounded fault injection"
 RULE = _rtc.RTC_RULE
 Z = "vf.contracts.z3solve"
-FUNCTIONS = ["backend_z3.z3_solver_sat", "BackendZ3._batch_eval", "BackendZ3._extrema"] + \
+FUNCTIONS = ["backend_z3.z3_solver_sat", "BackendZ3._batch_eval", "BackendZ3._extrema", "BackendZ3._satisfiable", "BackendZ3._solution", "BackendZ3._eval", "BackendZ3._min", "BackendZ3._max"] + \
             [f"ModelCacheMixin.{m} (exceptional postcondition)" for m in ("eval", "batch_eval", "min", "max", "solution", "satisfiable")] + \
             ["HybridFrontend queries (the exact frontend gives up: the error propagates, never the approximation's answer)", "CompositeFrontend.check_satisfiability (a child's solver call gives up: representation invariant kept)", "CompositeFrontend._ensure_sat"]
 TRUSTED = _rtc.RTC_TRUSTED + ["ghost solver: push/pop/add/model as documented by Z3"]
@@ -32,6 +32,7 @@ def tasks(tier, seed=0):
     from vf.contracts import composite
     for m in composite.FAULT_METHODS:
         out.append(task("vf.contracts.composite", "ob_composite", f"composite.{m}/rep-after-a-child-gave-up", ["C17", "C12"], method=m, tier=tier))
+    out += [task("vf.contracts.z3solve", "ob_thin_wrappers", f"z3solve.BackendZ3.{m}/delegates-the-callers-question", ["C11", "C14", "C17"], which=m, tier=tier) for m in ("_satisfiable", "_solution", "_eval", "_min", "_max")]
     from vf.contracts import layers
     out += layers.fault_tasks(tier)
     from vf.contracts import hybrid
